@@ -331,3 +331,59 @@ PIPELINES["C09"] = _c09
 
 SIMPLE_REPLAY["sw"] = ("Trace_SW", lambda v, trace, res: simple_account(v, trace, res, "sw", "Trace_SW",
                                                                        key=lambda e: {"s1": e["s1"], "s2": e["s2"], "sch": e["sch"]}))
+
+
+def _s(l):
+    try:
+        return bytes(l).decode("latin1")
+    except Exception:
+        return str(l)
+
+
+def fmt_account(v, trace, res):
+    simple_account(v, trace, res, "fmt", "Trace_Formats",
+                   key=lambda e: {"als": [{"rows": a["rows"]} for a in e["in"]], "chain": [e["h"]]},
+                   sample=lambda e: {"format": e["h"], "rows": len(e["in"][0]["rows"]) if e["in"] else 0,
+                                     "length": len(e["in"][0]["rows"][0]["s"]) if e["in"] and e["in"][0]["rows"] else 0, "alignments": len(e["in"]),
+                                     "outcome": e["kind"]},
+                   describe=lambda e: {"fmt": e["h"]["fmt"], "msg": e.get("msg", "")[:200],
+                                       "names": [_s(r["n"]) for a in e["in"] for r in a["rows"]][:4],
+                                       "first_row": _s(e["in"][0]["rows"][0]["s"])[:40] if e["in"] and e["in"][0]["rows"] else ""})
+
+
+def _c02(work, v, tier, seed):
+    vf.build_driver(work)
+    cfg = write_cfg(work, "Gen_Formats_%s.cfg" % tier, spec=None, invariants=["Emit", "AllRepresentable"],
+                    constants={"Scope": "quick" if tier == "quick" else "full"})
+    cases, n, r = vf.tlc_gen(work, "Gen_Formats", cfg, workers=8)
+    if "AllRepresentable is violated" in r.out or n == 0:
+        raise vf.ToolingError("Gen_Formats: a generated case is not representable (specification defect):\n" + vf.tail(r.out))
+    v.add_mc(r, "gen:Formats")
+    trace = vf.drive(work, "fmt", cases=cases, n=300 if tier == "quick" else 5000, seed=seed, tier=tier)
+    res = vf.tlc_trace(work, "Trace_Formats", trace, cfg=write_cfg(work, "Trace_Formats.cfg", invariants=["Done"]))
+    fmt_account(v, trace, res)
+    v.notes.append("%d of %d hops were on representable inputs and judged" % (res.get("judged", 0), res.get("consumed", 0)))
+    v.assumptions += ["TLC and the CommunityModules evaluate TLA+ correctly", "names restricted to the representable ones defined in Formats.tla"]
+
+
+PIPELINES["C02"] = _c02
+SIMPLE_REPLAY["fmt"] = ("Trace_Formats", fmt_account)
+
+
+def parse_account(v, trace, res):
+    simple_account(v, trace, res, "parse", "Trace_Parse", key=lambda e: e["c"],
+                   sample=lambda e: {"parser": e["c"]["fmt"], "strict": e["c"]["strict"], "input": _s(e["c"]["bytes"])[:60], "outcome": e["kind"]},
+                   describe=lambda e: {"fmt": e["c"]["fmt"], "msg": e.get("msg", "")[:200], "input": _s(e["c"]["bytes"])[:300]})
+
+
+def _c03(work, v, tier, seed):
+    vf.build_driver(work)
+    trace = vf.drive_resumable(work, "parse", n=250 if tier == "quick" else 100000, seed=seed, tier=tier)
+    res = vf.tlc_trace(work, "Trace_Parse", trace, cfg=write_cfg(work, "Trace_Parse.cfg", invariants=["Done"]))
+    parse_account(v, trace, res)
+    v.assumptions += ["TLC and the CommunityModules evaluate TLA+ correctly",
+                      "a parser that reads 2000 times after the end of its input is looping; a parser silent for 20 s is looping"]
+
+
+PIPELINES["C03"] = _c03
+SIMPLE_REPLAY["parse"] = ("Trace_Parse", parse_account)
